@@ -13,7 +13,9 @@ K3  status key real parse_operations on one operation whose response key is the 
 """
 from __future__ import annotations
 
+import copy
 import json
+import re
 import keyword
 from importlib import import_module
 
@@ -487,9 +489,18 @@ METHODS = ["get", "put", "post", "delete", "options", "head", "patch", "trace"] 
 SIBLINGS = [None, "parameters", "summary", "description", "servers", "x-internal"]
 
 
-def k_methods(P, m1, m2, sibling, opid):
+BODIES = {None: None,
+          "json_schema": {"content": {"application/json": {"schema": {"type": "object"}}}},
+          "octet_no_schema": {"content": {"application/octet-stream": {}}},
+          "json_example_only": {"content": {"application/json": {"example": {"a": 1}}}},
+          "two_media_one_bare": {"content": {"application/json": {"schema": {"type": "string"}}, "text/plain": {}}},
+          "no_content": {"description": "body", "required": True}}
+
+
+def k_methods(P, m1, m2, sibling, opid, body=None):
     """one path item carrying operations under the methods m1 and m2 (m2 may equal m1 -> one operation) next to a
-    non-operation field -> sorted (method, path) pairs out"""
+    non-operation field; the first operation may declare a request body (a media type object need not carry a schema)
+    -> sorted (method, path) pairs out"""
     ops_mod = import_module(P.__name__ + ".core.loader.operations")
     ctx_mod = import_module(P.__name__ + ".core.parsing.context")
     D = hook.SDict if _inst(P) else dict
@@ -501,6 +512,8 @@ def k_methods(P, m1, m2, sibling, opid):
     elif sibling is not None:
         item[sibling] = "text"
     item[m1] = D(operationId=opid, responses=OK_RESP)
+    if BODIES[body] is not None:
+        item[m1]["requestBody"] = copy.deepcopy(BODIES[body])
     if m2 != m1:
         item[m2] = D(responses=OK_RESP)
     paths = D()
@@ -513,20 +526,23 @@ class Methods(Obligation):
     functions = ["pyopenapi_gen.core.loader.operations.parser:parse_operations"]
     alphabet = ID_ALPHA
 
-    def __init__(self, n):
-        self.n = n
-        self.name = "methods/id_len=%d" % n
-        self.bounds = {"methods": METHODS, "non-operation sibling field": SIBLINGS, "operationId_len": n}
+    def __init__(self, n, vary="fields"):
+        self.n, self.vary = n, vary
+        self.name = "methods/id_len=%d" % n + ("" if vary == "fields" else "/bodies")
+        self.bounds = {"methods": METHODS, "non-operation sibling field": SIBLINGS, "operationId_len": n, "request_body_of_first_operation": [str(b) for b in BODIES]}
 
     def make_inputs(self, e):
+        if self.vary == "bodies":
+            return {"m1": METHODS[e.choose(len(METHODS), "m1")], "m2": ["get", "post"][e.choose(2, "m2")], "sibling": None,
+                    "body": list(BODIES)[1 + e.choose(len(BODIES) - 1, "body")], "opid": mk_sym_str(self.n, "opid", ID_ALPHA)}
         return {"m1": METHODS[e.choose(len(METHODS), "m1")], "m2": METHODS[e.choose(len(METHODS), "m2")], "sibling": SIBLINGS[e.choose(len(SIBLINGS), "sib")],
-                "opid": mk_sym_str(self.n, "opid", ID_ALPHA)}
+                "body": None, "opid": mk_sym_str(self.n, "opid", ID_ALPHA)}
 
     def run_sym(self, inp):
-        return call_catching(k_methods, _I(), inp["m1"], inp["m2"], inp["sibling"], inp["opid"])
+        return call_catching(k_methods, _I(), inp["m1"], inp["m2"], inp["sibling"], inp["opid"], inp.get("body"))
 
     def run_real(self, inp):
-        return call_catching(k_methods, _R(), inp["m1"], inp["m2"], inp["sibling"], inp["opid"])
+        return call_catching(k_methods, _R(), inp["m1"], inp["m2"], inp["sibling"], inp["opid"], inp.get("body"))
 
     def prop(self, inp, r):
         if isinstance(r, Raised):
@@ -534,16 +550,78 @@ class Methods(Obligation):
         return r == sorted({(inp["m1"].upper(), "/x"), (inp["m2"].upper(), "/x")})
 
     def describe_violation(self, inp, r):
-        return "path item with operations %s/%s next to %r -> operations out %r" % (inp["m1"], inp["m2"], inp["sibling"], r)
+        return "path item with operations %s/%s (request body of the first: %s) next to %r -> operations out %r" % (inp["m1"], inp["m2"], inp.get("body"), inp["sibling"], r)
 
 
-def mk_methods(n):
-    return Methods(n)
+def mk_methods(n, vary="fields"):
+    return Methods(n, vary)
+
+
+# ------------------------------------------------------------------ K5: the clean strategy strips what FastAPI appended
+FASTAPI_PATHS = ["config", "data", "userProfiles", "2fa", "a-b", "v1/users", "x", "list", "class"]
+HANDLER_ALPHA = ranges_of_pts([ord(c) for c in "aAb_1"])
+
+
+def k_clean(P, handler, path, method):
+    """FastAPI names the operation  re.sub(r'\\W', '_', handler + path_format) + '_' + method ; under the `clean` strategy the
+    client method must be the one the bare handler name gives under the `operationId` strategy
+    -> (method name under clean for the FastAPI id, method name under operationId for the handler name)"""
+    ops_mod = import_module(P.__name__ + ".core.loader.operations")
+    ctx_mod = import_module(P.__name__ + ".core.parsing.context")
+    D = hook.SDict if _inst(P) else dict
+    suffix = re.sub(r"\W", "_", "/" + path) + "_" + method
+    out = []
+    for strat, opid in ((P.NamingStrategy.CLEAN, handler + suffix), (P.NamingStrategy.OPERATION_ID, handler)):
+        paths = D()
+        item = D()
+        item[method] = D(operationId=opid, responses=OK_RESP)
+        paths["/" + path] = item
+        ops = ops_mod.parse_operations(paths, D(), D(), D(), ctx_mod.ParsingContext(), naming_strategy=strat)
+        out.append(P.core.utils.NameSanitizer.sanitize_method_name(ops[0].operation_id) if len(ops) == 1 else None)
+    return tuple(out)
+
+
+class CleanStrips(Obligation):
+    functions = ["pyopenapi_gen.core.loader.operations.parser:parse_operations",
+                 "pyopenapi_gen.core.utils:NameSanitizer.clean_auto_generated_operation_id",
+                 "pyopenapi_gen.core.utils:NameSanitizer.sanitize_method_name"]
+
+    def __init__(self, n):
+        self.n = n
+        self.name = "clean_strips/handler_len=%d" % n
+        self.bounds = {"handler_name_len": n, "handler_alphabet": "aAb_1", "paths": FASTAPI_PATHS, "methods": ["get", "post", "delete"],
+                       "outside": "paths with {parameters}: the repo documents that the pattern is then not detected and the id is kept"}
+
+    def make_inputs(self, e):
+        return {"path": FASTAPI_PATHS[e.choose(len(FASTAPI_PATHS), "path")], "method": ["get", "post", "delete"][e.choose(3, "method")],
+                "handler": mk_sym_str(self.n, "handler", HANDLER_ALPHA)}
+
+    def run_sym(self, inp):
+        return call_catching(k_clean, _I(), inp["handler"], inp["path"], inp["method"])
+
+    def run_real(self, inp):
+        return call_catching(k_clean, _R(), inp["handler"], inp["path"], inp["method"])
+
+    def prop(self, inp, r):
+        if isinstance(r, Raised):
+            return True
+        a, b = r
+        if a is None or b is None:
+            return False
+        return len(a) == len(b) and bool(a == b) and bool(valid_ident(a))
+
+    def describe_violation(self, inp, r):
+        return "handler %r at %s /%s: FastAPI operationId under `clean` -> method %r ; the handler name itself -> %r (must agree)" % (
+            inp["handler"], inp["method"].upper(), inp["path"], r[0] if isinstance(r, tuple) else r, r[1] if isinstance(r, tuple) else None)
+
+
+def mk_clean(n):
+    return CleanStrips(n)
 
 
 # ------------------------------------------------------------------ run
 def specs(tier):
-    out = [(MOD, "mk_methods", (1,)), (MOD, "mk_routing_tokens", ((1, 1),)), (MOD, "mk_routing_tokens", ((2,),)), (MOD, "mk_status", (True,)), (MOD, "mk_status", (False,)), (MOD, "mk_status", (True, True)), (MOD, "mk_status", (False, True))]
+    out = [(MOD, "mk_methods", (1,)), (MOD, "mk_methods", (1, "bodies")), (MOD, "mk_clean", (1,)), (MOD, "mk_clean", (2,)),] + ([] if tier == "quick" else [(MOD, "mk_clean", (3,)), (MOD, "mk_methods", (2,))]) + [ (MOD, "mk_routing_tokens", ((1, 1),)), (MOD, "mk_routing_tokens", ((2,),)), (MOD, "mk_status", (True,)), (MOD, "mk_status", (False,)), (MOD, "mk_status", (True, True)), (MOD, "mk_status", (False, True))]
     q = tier == "quick"
     for shape in ClientNames.TAGSETS:
         k = len(ClientNames.TAGSETS[shape])
@@ -595,7 +673,9 @@ def replay(path):
         lens = [len(v["inputs"][k]) for k in sorted(v["inputs"])]
         ob = Routing(shape, lens)
     elif parts[0] == "methods":
-        ob = Methods(int(parts[1].split("=")[1]))
+        ob = Methods(int(parts[1].split("=")[1]), "bodies" if parts[-1] == "bodies" else "fields")
+    elif parts[0] == "clean_strips":
+        ob = CleanStrips(int(parts[1].split("=")[1]))
     elif parts[0] == "client_names":
         ob = ClientNames(parts[1], [len(v["inputs"][k]) for k in sorted(v["inputs"])])
     else:
